@@ -34,7 +34,7 @@ PrefixState(p) ==
 React(c, st) ==
   CASE c \in {"garbage", "half_request", "http_get_half", "trunc_header", "trunc_body"} -> "wait"
     [] c \in {"no_cseq", "bad_url", "oversize_header", "oversize_url", "bad_content_length",
-              "bad_transport", "udp_no_ports", "bad_session", "bad_keymgmt", "bad_sdp", "wrong_version",
+              "bad_transport", "udp_no_ports", "bad_session", "bad_keymgmt", "bad_sdp", "sdp_mikey_short", "wrong_version",
               "ws_invalid", "http_post_orphan", "dup_setup", "illegal_state"} -> "response+close"
     [] c \in {"unknown_method", "options_ok", "valid_pause", "valid_play", "valid_record", "valid_teardown",
               "valid_getparam"} -> "response"
@@ -73,6 +73,9 @@ AllClasses == {"garbage", "half_request", "http_get_half", "trunc_header", "trun
                \* a SETUP of the next free track over UDP whose Transport header names no client ports
                \* (in the direction the prefix has chosen: mode=record after ANNOUNCE)
                "udp_no_ports",
+               \* an ANNOUNCE whose SDP carries a MIKEY message that announces many crypto sessions and
+               \* ends after a byte or two of their table (numeric extreme + truncation)
+               "sdp_mikey_short",
                "bad_keymgmt", "bad_sdp", "wrong_version", "ws_invalid", "http_post_orphan", "dup_setup",
                "illegal_state", "unknown_method", "options_ok", "frame_unknown_channel", "frame_before_play",
                \* well-formed RTP / RTCP packets with the medias' own payload types on every channel
